@@ -208,12 +208,12 @@ def run(tier, seed):
     rnd = random.Random(seed)
     failures = []
     stats = {"steps": 0, "states": 0, "max_depth": 8 if tier == "quick" else 12}
-    deadline = time.time() + (30 if tier == "quick" else 900)
+    deadline = time.time() + (12 if tier == "quick" else 900)
     configs = [(3, [0, 1], False, 60000), (3, [0, 1], True, 20000)] if tier == "quick" else \
         [(3, [0, 1, 2], False, 2000000), (3, [0, 1], True, 200000), (4, [0, 1], False, 1000000)]
     for q, rems, auto, cap in configs:
         explore(q, rems, auto, cap, deadline, failures, stats, None)
-    wd = time.time() + (40 if tier == "quick" else 600)
+    wd = time.time() + (20 if tier == "quick" else 600)
     random_walks(3, [0, 1, 2], False, 600 if tier == "quick" else 30000, 24, failures, stats, rnd, wd)
     random_walks(3, [0, 1, 2], True, 200 if tier == "quick" else 10000, 40, failures, stats, rnd, wd)
     random_walks(4, [0, 1], False, 100 if tier == "quick" else 5000, 40, failures, stats, rnd, wd)
